@@ -76,6 +76,7 @@ func init() {
 			byPath map[string]map[string]string // path -> combo -> canonical snapshot
 		}
 		sn := &snap{byPath: map[string]map[string]string{}}
+		gates := lx.NewGateTally()
 		total := &lx.SeqStats{Outcomes: map[string]int64{}, Observations: map[string]int64{}, Exhaustive: true}
 		var last *lx.SeqExplorer
 		for _, cfg := range combos {
@@ -86,7 +87,7 @@ func init() {
 				Check: func(ctx context.Context, s *lx.StepInfo, rep *lx.Report) {
 					lx.CheckCurrent(ctx, s.Ctrl, s.Ref, rep)
 					lx.CheckPIT(ctx, s.Ctrl, s.Ref, rep)
-					lx.CheckFeatureGates(ctx, s.Ctrl, s.Ref, rep)
+					lx.CheckFeatureGatesTally(ctx, s.Ctrl, s.Ref, rep, gates)
 					// hashes present iff HASH_LOGS=SYNC
 					logs, err := lx.ListLogs(ctx, s.Ctrl)
 					if err == nil {
@@ -150,7 +151,22 @@ func init() {
 			}
 		}
 		vacuous(r, total, "post:ok", "revert:ok", "accmeta:ok")
-		cov := seqCoverage(last, total, "the same set of histories (every sequence of length<=depth over a 10-op write alphabet) is run under each of the feature combinations; per combination: reads needing a disabled feature must fail with a missing-feature error (PIT volumes without MOVES_HISTORY, effective volumes/aggregates without MOVES_HISTORY_POST_COMMIT_EFFECTIVE_VOLUMES), everything else must equal the reference, hashes present iff HASH_LOGS=SYNC; across combinations: transactions, logs (hash aside), current balances and current metadata of each history must be identical")
+		// every date-bound shape of the volumes read (end only, start only, both; effective
+		// and insertion dates) must have been seen rejected on a MOVES_HISTORY=OFF ledger
+		// with a non-empty history, and the start-only shape answered on an ON ledger
+		gateSeen := gates.Snapshot()
+		if r.ViolationCount() == 0 && total.DepthDone > 0 {
+			for _, g := range lx.VolumeGateReads() {
+				if gateSeen[g+":rejected"] == 0 {
+					r.EngineError(fmt.Sprintf("vacuous: gated read %s was never observed rejected on a ledger without MOVES_HISTORY", g))
+				}
+				if !strings.HasPrefix(g, "volumes-window-") && gateSeen[g+":answered"] == 0 {
+					r.EngineError(fmt.Sprintf("vacuous: gated read %s was never observed answered on a ledger with MOVES_HISTORY", g))
+				}
+			}
+		}
+		cov := seqCoverage(last, total, "the same set of histories (every sequence of length<=depth over a 10-op write alphabet) is run under each of the feature combinations; per combination: reads needing a disabled feature must fail with a missing-feature error (date-bounded volumes without MOVES_HISTORY in EVERY shape of the bounds: end only (PIT), start only (OOT) for every recorded transaction date, start+end for every ordered pair of recorded dates, each on effective and on insertion dates; PIT aggregates and account volumes without MOVES_HISTORY; effective volumes/aggregates without MOVES_HISTORY_POST_COMMIT_EFFECTIVE_VOLUMES), everything else must equal the reference (incl. the start-only volumes read == fold of the transactions dated at or after the bound when MOVES_HISTORY=ON), hashes present iff HASH_LOGS=SYNC; across combinations: transactions, logs (hash aside), current balances and current metadata of each history must be identical")
+		cov["gate_reads"] = gateSeen
 		cov["configurations"] = len(combos)
 		cov["histories_compared_across_configurations"] = len(sn.byPath)
 		return r.Finish(cov, []string{pgsimAssumption})
